@@ -490,11 +490,11 @@ def obligations : List Lean.Name := [
   ``skel_console_GetOutput, ``skel_console_waitPrompt, ``skel_console_WaitShort, ``skel_console_WaitLogin,
   ``skel_console_expectLog, ``skel_console_StripEcho, ``skel_console_StripStdPrompt, ``skel_console_Close,
   ``skel_errlog_HandleAbort, ``skel_errlog_Abort,
-  ``skel_asa_ApplyCommands, ``skel_asa_cmd, ``skel_asa_cmd_check, ``skel_asa_CloseConnection,
-  ``skel_ios_ApplyCommands, ``skel_ios_cmd, ``skel_ios_cmd_check, ``skel_ios_writeMem, ``skel_ios_prepareDevice,
-  ``skel_ios_scheduleReload, ``skel_ios_extendReload, ``skel_ios_sendReloadCmd, ``skel_ios_cancelReload,
+  ``skel_asa_ApplyCommands, ``skel_asa_cmd, ``skel_asa_CloseConnection,
+  ``skel_ios_ApplyCommands, ``skel_ios_cmd, ``skel_ios_writeMem, ``skel_ios_prepareDevice,
+  ``skel_ios_sendReloadCmd, ``skel_ios_cancelReload,
   ``skel_ios_CloseConnection,
-  ``skel_linux_ApplyCommands, ``skel_linux_cmd, ``skel_linux_cmd_check, ``skel_linux_writeStartupRouting,
+  ``skel_linux_ApplyCommands, ``skel_linux_cmd, ``skel_linux_writeStartupRouting,
   ``skel_linux_writeStartupIPTables, ``skel_linux_findIPTablesRestoreCmd, ``skel_linux_writeStartup,
   ``skel_linux_putScp, ``skel_linux_CloseConnection,
   ``skel_panos_ApplyCommands, ``skel_panos_doCmd, ``skel_panos_commit, ``skel_panos_httpPrefixGetLog,
